@@ -14,7 +14,7 @@ from vf.progs import tla as to_tla
 K = 1024
 SIZES = [0, 1, 1023, 1024, 1025, 2048, 2049, 3072]
 PKTS = [('INFO', 1), ('INFO', 2), ('OKAY', 1), ('OKAY', 2), ('FAIL', 1), ('DATA', 1), ('DATA', 0), ('JUNK', 1)]
-CMDS = [('getvar', 'version'), ('erase', 'boot'), ('flash', 'system'), ('oem', 'poweroff'),
+CMDS = [('getvar', 'version'), ('getvar', ''), ('flash', ''), ('erase', 'boot'), ('flash', 'system'), ('oem', 'poweroff'),
         ('continue', ''), ('reboot', ''), ('reboot', 'recovery'), ('reboot-bootloader', '')]
 
 
@@ -144,7 +144,8 @@ def replay_one(h):
       if h['mode'] == 'download':
         exp_sent.append('download:%08x' % size)
       else:
-        exp_sent.append(s[1] + (':' + s[2] if s[2] else '') if s[1] != 'oem' else 'oem ' + s[2])
+        # get_var / flash always pass their argument, also an empty one: "command[:arg]" with the argument given
+        exp_sent.append(s[1] + (':' + s[2] if (s[2] or s[1] in ('getvar', 'flash')) else '') if s[1] != 'oem' else 'oem ' + s[2])
     else:
       exp_sent.append(image(size)[s[1]:s[1] + s[2]])
   if usb.tx != exp_sent:
